@@ -23,43 +23,7 @@ def worker_init():
     Perm = P
 
 
-def _used(q):
-    """issue a few searches with the object (fills whatever it memoises)"""
-    try:
-        list(q.occurrences_in(Perm((1, 0, 2))))
-        Perm((0, 2, 1, 3)).contains(q)
-        list(q.occurrences_in(Perm((0, 1)), [0] * len(q), [0, 1]))
-        g = q.occurrences_in(Perm((2, 0, 3, 1, 4)))
-        next(g, None)          # a listing that is started and abandoned
-    except Exception:
-        pass
-    return q
-
-
-def mkperm(seq, salt=0):
-    """the permutation `seq` as an object with a past: fresh, already used in other searches, or derived by
-    a symmetry / an edit from an object that was used (deterministic in (seq, salt))"""
-    seq = tuple(seq)
-    k = (sum((i + 3) * (v + 1) for i, v in enumerate(seq)) + len(seq) + salt) % 7
-    p = Perm(seq)
-    if k == 0:
-        return p
-    if k == 1:
-        return _used(p)
-    try:
-        if k == 2:
-            q = _used(p.complement()).complement()
-        elif k == 3:
-            q = _used(p.reverse()).reverse()
-        elif k == 4:
-            q = _used(p.inverse()).inverse()
-        elif k == 5:
-            q = _used(p.rotate(1)).rotate(-1)
-        else:
-            q = _used(p.insert(0, 0)).remove(0) if len(p) < 12 else _used(p)
-    except Exception:
-        return p
-    return q if tuple(q) == seq else p
+from past import mkperm  # noqa: E402  (objects with a past: fresh / used / derived from a used object)
 
 
 def impl(op, a):
